@@ -284,6 +284,13 @@ type vsrvConfig struct {
 	S2CCap               int    // capacity of the server→client pipe; <=0 unlimited
 	ExpectErrors         bool   // the script provokes connection errors on purpose
 	Handler              func(s *vsrvSession, w http.ResponseWriter, r *http.Request)
+	// Optional, nil by default (added for C10/C11; no effect on the other monitors):
+	// Tune adjusts the servers before ConfigureServer (receive windows, MaxReadFrameSize …).
+	Tune func(h1 *http.Server, h2 *Server)
+	// OnFrame sees every complete frame of both directions, in wire order per direction, before
+	// the session's own bookkeeping; it is called with s.mu held (it must not call session
+	// methods that lock).
+	OnFrame func(s *vsrvSession, fromServer bool, f h2ref.Frame)
 }
 
 type vsrvSession struct {
@@ -331,6 +338,12 @@ type vsrvSession struct {
 	maxQueuedSeen int // C16: largest sc.queuedControlFrames sampled
 	panics        []string
 	expectGone    bool // script sent something after which the server may legitimately hang up
+
+	// Ordering aid for scripts (see settledClean): what the last settle() found, cleared by
+	// every later stimulus from the script (client bytes, handler release, drain, capacity
+	// change, close).
+	lastSettleClean   bool // connection healthy, all client bytes consumed, no server write blocked or half on the wire
+	lastSettleAllRead bool // all client bytes consumed by the server
 
 	trace    []vsrvTraceEnt
 	traceCut int
@@ -414,6 +427,9 @@ func (s *vsrvSession) start() {
 		h2.NewWriteScheduler = func() WriteScheduler { return NewRandomWriteScheduler() }
 	case "rfc7540":
 		h2.NewWriteScheduler = func() WriteScheduler { return NewPriorityWriteScheduler(nil) }
+	}
+	if s.cfg.Tune != nil {
+		s.cfg.Tune(h1, h2)
 	}
 	ConfigureServer(h1, h2)
 	s.srv = h2
@@ -537,10 +553,35 @@ func (c vsrvSrvConn) SetWriteDeadline(t time.Time) error { return nil }
 
 // client side -----------------------------------------------------------------------------
 
+// stimulus records that the script acted on the connection or on a handler: whatever the last
+// settle() established is no longer "now". s.mu held.
+func (s *vsrvSession) stimulus() { s.lastSettleClean, s.lastSettleAllRead = false, false }
+
+// settledClean reports whether the script's last action was a settle() that found the
+// connection open and fully quiescent: every goroutine durably blocked, every client byte
+// consumed by the server, no server write blocked in or half-way through the pipe (so every
+// frame the server considers written — incl. those only buffered — has been seen by the
+// monitor), and nothing done by the script since. At such a point the shadow state and the
+// server's own state describe the same instant.
+func (s *vsrvSession) settledClean() bool {
+	s.mu.Lock()
+	defer s.mu.Unlock()
+	return s.lastSettleClean
+}
+
+// settledAllRead reports whether the script's last action was a settle() at which the server
+// had consumed (and, being quiescent, processed) every byte the client sent.
+func (s *vsrvSession) settledAllRead() bool {
+	s.mu.Lock()
+	defer s.mu.Unlock()
+	return s.lastSettleAllRead
+}
+
 // cliWrite sends raw bytes from the scripted client.
 func (s *vsrvSession) cliWrite(p []byte) {
 	s.mu.Lock()
 	defer s.mu.Unlock()
+	s.stimulus()
 	if s.cliClosed {
 		return
 	}
@@ -555,6 +596,7 @@ func (s *vsrvSession) cliWrite(p []byte) {
 // drain lets the client read up to n bytes of server output (only meaningful with S2CCap>0).
 func (s *vsrvSession) drain(n int) {
 	s.mu.Lock()
+	s.stimulus()
 	if n < 0 || n > s.s2cLen {
 		n = s.s2cLen
 	}
@@ -567,6 +609,7 @@ func (s *vsrvSession) drain(n int) {
 // every blocked server write through).
 func (s *vsrvSession) setCap(n int) {
 	s.mu.Lock()
+	s.stimulus()
 	s.cfg.S2CCap = n
 	if n <= 0 {
 		s.s2cLen = 0
@@ -577,6 +620,7 @@ func (s *vsrvSession) setCap(n int) {
 
 func (s *vsrvSession) cliClose() {
 	s.mu.Lock()
+	s.stimulus()
 	s.cliClosed = true
 	s.tr("C closes connection")
 	s.cond.Broadcast()
@@ -620,6 +664,7 @@ func (s *vsrvSession) setPlan(stream uint32, ops []vsrvOp) *vsrvPlan {
 
 func (s *vsrvSession) release(stream uint32) {
 	s.mu.Lock()
+	s.stimulus()
 	p := s.plans[stream]
 	s.mu.Unlock()
 	if p != nil {
@@ -633,6 +678,7 @@ func (s *vsrvSession) release(stream uint32) {
 // releaseAll lets the handler of a stream run through all its remaining park points.
 func (s *vsrvSession) releaseAll(stream uint32) {
 	s.mu.Lock()
+	s.stimulus()
 	p := s.plans[stream]
 	s.mu.Unlock()
 	if p != nil {
@@ -757,6 +803,9 @@ func (s *vsrvSession) clientBytes(p []byte) {
 
 func (s *vsrvSession) onClientFrame(f h2ref.Frame) {
 	s.ev["client_frames"]++
+	if s.cfg.OnFrame != nil {
+		s.cfg.OnFrame(s, false, f)
+	}
 	switch f.Type {
 	case h2ref.TypeSettings:
 		if f.StreamID != 0 {
@@ -895,6 +944,9 @@ func (s *vsrvSession) maxFrameAllowed() int64 {
 func (s *vsrvSession) onServerFrame(f h2ref.Frame) {
 	s.srvFrames++
 	s.ev["server_frames"]++
+	if s.cfg.OnFrame != nil {
+		s.cfg.OnFrame(s, true, f)
+	}
 	if !s.cGarbage {
 		if m := s.maxFrameAllowed(); int64(f.Length) > m {
 			s.viol(vsrvGrpFlow, "frame-exceeds-max-frame-size", "server sent %v but the largest SETTINGS_MAX_FRAME_SIZE it can rely on is %d (snapshots %d..%d of %v)", f, m, s.lo, len(s.snaps)-1, s.snaps)
@@ -1220,11 +1272,14 @@ func (s *vsrvSession) settle() {
 	s.mu.Lock()
 	defer s.mu.Unlock()
 	s.ev["quiescent_points"]++
+	s.stimulus()
 	if s.cGarbage {
 		return
 	}
 	writerFree := s.blockedWriters == 0 && len(s.sbuf) == 0
 	allRead := len(s.c2s) == 0 && len(s.cbuf) == 0 && s.cPrefaceLeft == 0
+	s.lastSettleAllRead = allRead
+	s.lastSettleClean = allRead && writerFree && s.healthy()
 	if !writerFree || !allRead {
 		s.ev["quiescent_points_with_blocked_io"]++
 		return
